@@ -971,6 +971,7 @@ pub fn decorate(tree: &Node, script: &[u16], anchor_pct: u16, alias_pct: u16, un
         script: &'a [u16],
         i: usize,
         bound: Vec<String>,
+        open: Vec<String>,
     }
     impl<'a> St<'a> {
         fn next(&mut self) -> u16 {
@@ -981,19 +982,31 @@ pub fn decorate(tree: &Node, script: &[u16], anchor_pct: u16, alias_pct: u16, un
     }
     fn go(n: &Node, st: &mut St, a: u16, al: u16, ub: u16, is_root: bool) -> Node {
         let r = st.next() % 100;
-        if !is_root && r < al {
+        let want_unbound = st.next() % 100 < ub;
+        if !is_root && r < al && (want_unbound || !st.bound.is_empty()) {
             // replace by an alias
             let r2 = st.next();
-            if st.next() % 100 < ub || st.bound.is_empty() {
+            if want_unbound {
                 return Node::alias(NAME_POOL[(r2 as usize) % NAME_POOL.len()]);
             }
-            let name = st.bound[(r2 as usize) % st.bound.len()].clone();
+            // prefer names whose anchored node is already closed (an alias to a node that is
+            // still open is a recursive reference)
+            let r3 = st.next();
+            let closed: Vec<&String> = st.bound.iter().filter(|b| !st.open.contains(b)).collect();
+            let name = if closed.is_empty() || r3 % 100 < 5 {
+                st.bound[(r2 as usize) % st.bound.len()].clone()
+            } else {
+                closed[(r2 as usize) % closed.len()].clone()
+            };
             return Node::alias(&name);
         }
         let mut out = Node { anchor: None, tag: n.tag.clone(), kind: n.kind.clone() };
+        let mut opened = false;
         if r >= al && r < al + a {
             let name = NAME_POOL[(st.next() as usize) % NAME_POOL.len()].to_string();
             st.bound.push(name.clone());
+            st.open.push(name.clone());
+            opened = true;
             out.anchor = Some(name);
         }
         out.kind = match &n.kind {
@@ -1011,9 +1024,12 @@ pub fn decorate(tree: &Node, script: &[u16], anchor_pct: u16, alias_pct: u16, un
             },
             k => k.clone(),
         };
+        if opened {
+            st.open.pop();
+        }
         out
     }
-    let mut st = St { script, i: 0, bound: vec![] };
+    let mut st = St { script, i: 0, bound: vec![], open: vec![] };
     go(tree, &mut st, anchor_pct, alias_pct, unbound_pct, true)
 }
 
